@@ -577,8 +577,11 @@ func (d *driver) run(replay string) int {
 	inconclusive := 0
 	byClause := map[string]bool{}
 	for _, f := range fails {
-		key := f.Outcome.Clause + "|" + f.Outcome.Sig
-		if byClause[key] {
+		key := f.Outcome.Clause
+		if f.crash {
+			key += "|" + f.Outcome.Sig
+		}
+		if byClause[key] || len(byClause) >= 6 {
 			continue
 		}
 		byClause[key] = true
